@@ -194,6 +194,9 @@ def run(ctx):
                 ctx.nontrivial_count += 1
             if bad:
                 ctx.violation(bad[0], bad[1], c)
+    from .. import umbrella
+    import atomman as _am
+    umbrella.run(ctx, _am, 'C15')      # cross-module histories of spec/Atomman.tla (only the steps this property owns are reported here)
     # binding self-test
     import copy
     for c in cases:
